@@ -134,7 +134,17 @@ func matchWire(b *binder, expr string, row wireRow) string {
 			return "expected form " + m + " not found"
 		}
 	}
+	if unconditionalRows[row.field] && strings.HasPrefix(expr, "phi(") {
+		// the parts of a trip identifier are what their converters answer, on every path: a part that is decoded only
+		// when another part is present merges identifiers that differ in it
+		return "the field takes its converter's answer only on some paths (" + clip(expr, 80) + "): whether it is decoded depends on something else than its own wire field"
+	}
 	return ""
+}
+
+// unconditionalRows: fields whose store is the converter's result on every path (no merge with a constant).
+var unconditionalRows = map[string]bool{
+	"gtfs.TripID.HasStartTime": true, "gtfs.TripID.StartTime": true, "gtfs.TripID.HasStartDate": true, "gtfs.TripID.StartDate": true,
 }
 
 // bodyShown: every call of cl in expr is rendered as cl(args)=>{body}.
@@ -263,6 +273,21 @@ func runWireTable(c *Ctx) {
 					if e3 := b.bindInContextT(fs.fn, fs.store.Val, within, 0, ""); e3 != expr && matchWire(b, e3, r) == "" {
 						expr, why = e3, ""
 					}
+				}
+			}
+			if why == "" && unconditionalRows[key] {
+				for _, ce := range dominatingConds(fs.store.Block()) {
+					bo, isB := ce.Cond.(*ssa.BinOp)
+					if isB && (isNilConst(bo.X) || isNilConst(bo.Y)) {
+						other := bo.X
+						if isNilConst(bo.X) {
+							other = bo.Y
+						}
+						if _, isPrm := other.(*ssa.Parameter); isPrm {
+							continue // the descriptor itself is absent
+						}
+					}
+					why = "the field is stored only under " + clip(b.bind(ce.Cond), 80) + ": whether this part of the identifier is decoded depends on something else than its own wire field (identifiers that differ in it merge)"
 				}
 			}
 			timeRow := false
@@ -602,37 +627,6 @@ func runUnits(c *Ctx) {
 		c.Check(ok, "UNITS", shortName(f), "HH:MM:SS start time as a duration", p.pos(f.Pos()), "(3600*h + 60*m + s) * time.Second from the three regexp groups", why)
 	}
 	runStartAcceptance(c, "UNITS")
-	// the texts accepted as start time / start date are exactly HH:MM:SS and YYYYMMDD (oracle: gtfs-realtime.proto)
-	for _, pr := range []struct{ spec, want, what string }{
-		{"gtfs:parseStartTime", `^([0-9]{2}):([0-9]{2}):([0-9]{2})$`, "start_time is HH:MM:SS"},
-		{"gtfs:parseStartDate", `^([0-9]{4})([0-9]{2})([0-9]{2})$`, "start_date is YYYYMMDD"},
-	} {
-		f := c.anchor(pr.spec)
-		if f == nil {
-			continue
-		}
-		got, found := "", false
-		for _, g := range c.regionOf(f) {
-			for _, blk := range g.Blocks {
-				for _, in := range blk.Instrs {
-					for _, op := range in.Operands(nil) {
-						if gl, ok := (*op).(*ssa.Global); ok && shortType(deref(gl.Type())) == "*regexp.Regexp" {
-							if pat, ok := c.globalRegexpPattern(gl); ok {
-								got, found = pat, true
-							}
-						}
-					}
-				}
-			}
-		}
-		okPat := false
-		if found {
-			rx, e1 := syntax.Parse(got, syntax.Perl)
-			want, e2 := syntax.Parse(pr.want, syntax.Perl)
-			okPat = e1 == nil && e2 == nil && rx.Simplify().String() == want.Simplify().String()
-		}
-		c.Check(okPat, "UNITS", shortName(f), pr.what, p.pos(f.Pos()), "the accepted texts are those of "+pr.want, "the pattern that decides which texts are accepted is "+got+", not "+pr.want+": well-formed values are dropped or malformed ones accepted")
-	}
 	if f := c.anchor("gtfs:parseStartDate"); f != nil {
 		b := newBinder(c)
 		b.showBodies = true // the groups may be converted by a helper
@@ -682,34 +676,7 @@ func runUnits(c *Ctx) {
 		}
 		c.Check(ok, "UNITS", shortName(f), "YYYYMMDD start date at local midnight", p.pos(f.Pos()), "time.Date(year=group1, month=group2, day=group3, 0, 0, 0, 0, zone)", "start date is not built as midnight of (group1, group2, group3): "+why)
 	}
-	if f := c.anchor("gtfs:parseDirectionID_GTFSRealtime"); f != nil {
-		tb, err := c.extractTableComposed(f, 0)
-		ok := err == nil
-		var probs []string
-		if ok {
-			pn := f.Params[0].Name()
-			got := map[string]string{}
-			for _, r := range tb.rows {
-				got[condsString(r.conds)] = r.results[0]
-			}
-			want := map[string]string{
-				pn + "==nil":                     c.constOf("gtfs", "DirectionID_Unspecified"),
-				pn + "!=nil && *(" + pn + ")==0": c.constOf("gtfs", "DirectionID_False"),
-				pn + "!=nil && *(" + pn + ")!=0": c.constOf("gtfs", "DirectionID_True"),
-			}
-			for k, v := range want {
-				if got[k] != v {
-					probs = append(probs, fmt.Sprintf("[%s] -> %s (expected %s)", k, got[k], v))
-				}
-			}
-			if len(got) != len(want) {
-				probs = append(probs, "table has "+fmt.Sprint(len(got))+" rows: "+tb.String())
-			}
-		} else {
-			probs = append(probs, err.Error())
-		}
-		c.Check(len(probs) == 0, "UNITS", shortName(f), "direction table nil/0/else", p.pos(f.Pos()), "absent -> Unspecified, 0 -> False, otherwise True", strings.Join(probs, "; "))
-	}
+	runDirectionTable(c, "UNITS")
 	// nil-preserving converters: nil in <=> nil out
 	for _, spec := range []string{"gtfs:convertOptionalTimestamp", "gtfs:parseOptionalTripDescriptor", "gtfs:convertVehiclePosition", "gtfs:parseVehicleDescriptor"} {
 		f := c.anchor(spec)
@@ -1029,7 +996,123 @@ func runStartAcceptance(c *Ctx, rule string) {
 			continue
 		}
 		bad := extraRejections(c, f, flagIdx, 0)
+		// ... and "no value" comes with the zero value: the identifier is a map key, and TripID.Less does not look at a
+		// start time / date that is flagged absent -- a non-zero value under a false flag makes two keys of one
+		// identifier (they do not merge, and they tie in the sort)
+		zbad := ""
+		for _, blk := range f.Blocks {
+			ret, isRet := blk.Instrs[len(blk.Instrs)-1].(*ssa.Return)
+			if !isRet || len(ret.Results) != 2 {
+				continue
+			}
+			vi := 1 - flagIdx
+			type pair struct{ flag, val ssa.Value }
+			pairs := []pair{{ret.Results[flagIdx], ret.Results[vi]}}
+			if fp, isPhi := ret.Results[flagIdx].(*ssa.Phi); isPhi && fp.Block() == blk {
+				pairs = nil
+				for i, e := range fp.Edges {
+					v := ret.Results[vi]
+					if vp, isVP := v.(*ssa.Phi); isVP && vp.Block() == blk {
+						v = vp.Edges[i]
+					}
+					pairs = append(pairs, pair{e, v})
+				}
+			}
+			for _, pr := range pairs {
+				bv, isC := constBool(pr.flag)
+				if !isC {
+					// a computed flag (`match != nil`): every non-zero value that can be handed back was made where the
+					// flag's condition is known to hold
+					okComputed := true
+					var leaves func(v ssa.Value, from *ssa.BasicBlock, d int)
+					leaves = func(v ssa.Value, from *ssa.BasicBlock, d int) {
+						if d > 6 {
+							okComputed = false
+							return
+						}
+						if ph, isPhi := v.(*ssa.Phi); isPhi {
+							for i, e := range ph.Edges {
+								leaves(e, ph.Block().Preds[i], d+1)
+							}
+							return
+						}
+						if isZeroValue(v) {
+							return
+						}
+						holds := false
+						for _, ce := range dominatingConds(from) {
+							cnd, val := ce.Cond, ce.Val
+							for {
+								u, isNot := cnd.(*ssa.UnOp)
+								if !isNot || u.Op != token.NOT {
+									break
+								}
+								cnd, val = u.X, !val
+							}
+							if canon(cnd) == canon(pr.flag) && val {
+								holds = true
+							}
+						}
+						if !holds {
+							okComputed = false
+						}
+					}
+					leaves(pr.val, blk, 0)
+					if !okComputed {
+						zbad = "the flag returned at " + p.ipos(ret) + " is computed (" + canon(pr.flag) + ") and the value handed back with it is not confined to where it holds, so a value can come together with `absent`"
+					}
+					continue
+				}
+				if bv {
+					continue
+				}
+				zero := isZeroValue(pr.val)
+				if ph, isPhi := pr.val.(*ssa.Phi); isPhi && !zero {
+					zero = true
+					for _, e := range ph.Edges {
+						if !isZeroValue(e) {
+							zero = false
+						}
+					}
+				}
+				if !zero {
+					zbad = "the value returned with `absent` at " + p.ipos(ret) + " is " + canon(pr.val) + ", not the zero value"
+				}
+			}
+		}
+		c.Check(zbad == "", rule, shortName(f), "an absent value is the zero value", p.pos(f.Pos()), "every return with a false flag hands back the zero value, and every flag is a constant", zbad+": identifiers that both say `no value` differ as map keys (two entries for one trip, tied in the sort)")
 		c.Check(bad == "", rule, shortName(f), "a value is dropped only when absent or not matching the pattern", p.pos(f.Pos()), "every path that answers `no value` took the nil test of the argument or of the pattern match, and nothing else", "a well-formed value is dropped by a further test: "+bad+" (a start time of 24:00:00 or later is valid and identifies another trip than the same id without start time)")
+	}
+	// the texts accepted as start time / start date are exactly HH:MM:SS and YYYYMMDD (oracle: gtfs-realtime.proto)
+	for _, pr := range []struct{ spec, want, what string }{
+		{"gtfs:parseStartTime", `^([0-9]{2}):([0-9]{2}):([0-9]{2})$`, "start_time is HH:MM:SS"},
+		{"gtfs:parseStartDate", `^([0-9]{4})([0-9]{2})([0-9]{2})$`, "start_date is YYYYMMDD"},
+	} {
+		f := c.anchor(pr.spec)
+		if f == nil {
+			continue
+		}
+		got, found := "", false
+		for _, g := range c.regionOf(f) {
+			for _, blk := range g.Blocks {
+				for _, in := range blk.Instrs {
+					for _, op := range in.Operands(nil) {
+						if gl, ok := (*op).(*ssa.Global); ok && shortType(deref(gl.Type())) == "*regexp.Regexp" {
+							if pat, ok := c.globalRegexpPattern(gl); ok {
+								got, found = pat, true
+							}
+						}
+					}
+				}
+			}
+		}
+		okPat := false
+		if found {
+			rx, e1 := syntax.Parse(got, syntax.Perl)
+			want, e2 := syntax.Parse(pr.want, syntax.Perl)
+			okPat = e1 == nil && e2 == nil && rx.Simplify().String() == want.Simplify().String()
+		}
+		c.Check(okPat, rule, shortName(f), pr.what, p.pos(f.Pos()), "the accepted texts are those of "+pr.want, "the pattern that decides which texts are accepted is "+got+", not "+pr.want+": well-formed values are dropped or malformed ones accepted")
 	}
 }
 
@@ -1172,4 +1255,128 @@ func runPlainGetters(c *Ctx, rule string) {
 		c.Check(bad == "", rule, shortName(fn), "the getter answers what its field points to, or the zero value, and writes nothing", p.pos(fn.Pos()), "every answer is *"+st.Field(fieldIdx).Name()+" of the receiver or the zero value; no store, map update or call", bad+": readers of the parsed message (the journal, the hasher) see something else than what the parser stored")
 	}
 	c.Stats[rule+" getters"] = n
+}
+
+// runDirectionTable: the realtime direction decoder is absent -> Unspecified, 0 -> False, anything else -> True.
+func runDirectionTable(c *Ctx, rule string) {
+	p := c.P
+	if f := c.anchor("gtfs:parseDirectionID_GTFSRealtime"); f != nil {
+		tb, err := c.extractTableComposed(f, 0)
+		ok := err == nil
+		var probs []string
+		if ok {
+			pn := f.Params[0].Name()
+			got := map[string]string{}
+			for _, r := range tb.rows {
+				got[condsString(r.conds)] = r.results[0]
+			}
+			want := map[string]string{
+				pn + "==nil":                     c.constOf("gtfs", "DirectionID_Unspecified"),
+				pn + "!=nil && *(" + pn + ")==0": c.constOf("gtfs", "DirectionID_False"),
+				pn + "!=nil && *(" + pn + ")!=0": c.constOf("gtfs", "DirectionID_True"),
+			}
+			for k, v := range want {
+				if got[k] != v {
+					probs = append(probs, fmt.Sprintf("[%s] -> %s (expected %s)", k, got[k], v))
+				}
+			}
+			if len(got) != len(want) {
+				probs = append(probs, "table has "+fmt.Sprint(len(got))+" rows: "+tb.String())
+			}
+		} else {
+			probs = append(probs, err.Error())
+		}
+		c.Check(len(probs) == 0, rule, shortName(f), "direction table nil/0/else", p.pos(f.Pos()), "absent -> Unspecified, 0 -> False, otherwise True", strings.Join(probs, "; "))
+	}
+}
+
+// runEveryElementTranscribed: the repeated wire fields that have no filter in the property -- the translations of a
+// text, the stop time updates of a trip, the active periods of an alert -- yield one element each: in the loop over
+// such a field every trip around the loop passes the append (no `continue` around it for a "duplicate" or an "empty"
+// element).
+func runEveryElementTranscribed(c *Ctx, rule string) {
+	p := c.P
+	fields := map[string]bool{"Translation": true, "StopTimeUpdate": true, "ActivePeriod": true}
+	getters := map[string]bool{"GetTranslation": true, "GetStopTimeUpdate": true, "GetActivePeriod": true}
+	isRepeated := func(v ssa.Value) string {
+		switch x := v.(type) {
+		case *ssa.Call:
+			name := calleeName(x)
+			short := name[strings.LastIndex(name, ".")+1:]
+			if getters[short] && strings.Contains(name, "/proto.") {
+				return strings.TrimPrefix(short, "Get")
+			}
+		case *ssa.UnOp:
+			if fa, ok := x.X.(*ssa.FieldAddr); ok && x.Op == token.MUL && strings.HasPrefix(shortType(fa.X.Type()), "*proto.") {
+				if f := fieldName(fa.X.Type(), fa.Field); fields[f] {
+					return f
+				}
+			}
+		}
+		return ""
+	}
+	n := 0
+	for _, fn := range realtimeFns(c) {
+		for _, l := range naturalLoops(fn) {
+			what := ""
+			hasAppend := false
+			for b := range l.Blocks {
+				for _, in := range b.Instrs {
+					switch x := in.(type) {
+					case *ssa.IndexAddr:
+						if f := isRepeated(x.X); f != "" {
+							what = f
+						}
+					case *ssa.Call:
+						if isBuiltin(x, "append") {
+							hasAppend = true
+						}
+					}
+				}
+			}
+			if what == "" || !hasAppend {
+				continue
+			}
+			n++
+			skipped := false
+			nP := pathsWithin(l.Header, l, func(path []*ssa.BasicBlock, back bool) {
+				if !back {
+					return
+				}
+				has := false
+				for _, pb := range path {
+					for _, in := range pb.Instrs {
+						if call, isC := in.(*ssa.Call); isC && isBuiltin(call, "append") {
+							has = true
+						}
+					}
+				}
+				if !has {
+					skipped = true
+				}
+			})
+			c.Check(!skipped && nP > 0, rule, shortName(fn), "every element of "+what+" is transcribed", p.pos(l.Header.Instrs[0].Pos()), fmt.Sprintf("all %d trips around the loop pass the append", nP), "some trip around the loop over "+what+" goes past the append: an element that is on the wire is missing from the result")
+		}
+	}
+	c.Stats[rule+" repeated-field loops"] = n
+}
+
+// isZeroValue: a zero constant, or the load of a local that nothing was stored into.
+func isZeroValue(v ssa.Value) bool {
+	switch x := v.(type) {
+	case *ssa.Const:
+		return x.Value == nil || x.IsNil() || x.Value.ExactString() == "0"
+	case *ssa.UnOp:
+		if al, isAlloc := x.X.(*ssa.Alloc); isAlloc && x.Op == token.MUL {
+			for _, r := range *al.Referrers() {
+				if _, isLoad := r.(*ssa.UnOp); !isLoad {
+					if _, isDbg := r.(*ssa.DebugRef); !isDbg {
+						return false
+					}
+				}
+			}
+			return true
+		}
+	}
+	return false
 }
